@@ -33,6 +33,12 @@ void ob_c14b_depth3(const ARR<2,3>& a, const ARR<3>& b)
 { PIN(a, 2,3); PIN(b, 3);
     { VIEW(v, view::negative(view::sum(view::subtract(a, b), 0))); REAPPLY(r, v); EXPECT_VIEW1("C14.extract.shape|C13.reapply.shape", "C14.extract.depth3|C13.reapply.depth3", r, 3, -((a(Z,i) - b(i)) + (a((size_t)1,i) - b(i))), 0); }
 }
+// depth 3 THROUGH a binary ufunc: its first operand is a view built on another view (every level of that operand must be composed)
+void ob_c14b_depth3_binary(const ARR<2,3>& a, const ARR<2>& c, const ARR<3>& b)
+{ PIN(a, 2,3); PIN(c, 2); PIN(b, 3);
+    { VIEW(v, view::subtract(view::transpose(view::negative(a)), c)); REAPPLY(r, v); EXPECT_VIEW2("C14.extract.shape|C13.reapply.shape", "C14.extract.binary_ufunc_over_indexing_over_ufunc|C13.reapply.depth3_binary", r, 3,2, -a(j,i) - c(j), 30); }
+    { VIEW(v, view::add(view::negative(view::negative(a)), b)); REAPPLY(r, v); EXPECT_VIEW2("C14.extract.shape|C13.reapply.shape", "C14.extract.binary_ufunc_over_ufunc_over_ufunc|C13.reapply.depth3_binary", r, 2,3, a(i,j) + b(j), 31); }
+}
 void ob_c14b_negctl(const ARR<2,3>& a, const ARR<3>& b)
 { PIN(a, 2,3); PIN(b, 3);
     auto v = nm::unwrap(view::subtract(a, b)); auto f = fn::get_function_composition(v); auto ops = fn::get_function_operands(v);
